@@ -503,7 +503,7 @@ pub fn run_main(a: RunArgs) -> i32 {
         "wall_s": wall,
         "violations": viol_count,
     });
-    let edir = verif_root().join("evidence");
+    let edir = std::env::var("VERIF_EVIDENCE_DIR").map(PathBuf::from).unwrap_or_else(|_| verif_root().join("evidence"));
     let _ = std::fs::create_dir_all(&edir);
     let epath = edir.join(format!("{}.json", a.prop));
     // sanitizer-layer results (fuzz / miri / build probes) are appended by ./check afterwards
